@@ -28,9 +28,10 @@ LEVEL_TEXT = ("Machine-checked theorems C01_message and C01_history: for every p
               "numbers mod 256, EOM on the last packet only) and leave the queue empty. Proof by induction over packages and messages using the C15 write-layout "
               "theorem; the exact-multiple lengths are covered by the universally quantified statement. The model is compared with the Go channel on the bytes of every transport write. "
               "Interrupted sends: C01_interrupted_queue - from every queue state reachable between QueuePackage calls (invariant msg_qi, C01_interrupted_states), for every package list and EVERY "
-              "budget per call (context done after k packets), the writes of the interrupted QueuePackage calls plus a live flush equal those of the uninterrupted message, same final state; "
-              "C01_interrupted_message: they satisfy tx_ok. Interrupted flushes / SendPackage (message abandoned by the deferred reset) are covered by the model-vs-code comparison and the "
-              "executable predicate segments_ok on every generated history, not by a universally quantified theorem.")
+              "budget per call (context done after k packets), the writes of the interrupted QueuePackage calls plus a live flush equal those of the uninterrupted message, same final state "
+              "(both are the unique packetisation of the queued bytes, canon_unique); C01_interrupted_message: they satisfy tx_ok; C01_interrupted_flush: an interrupted SendRemainingPackets empties "
+              "the queue and wrote a proper prefix (tx_prefix_ok), an uninterrupted one equals the live flush; C01_interrupted_history: for EVERY history of segments of QueuePackage/SendPackage/"
+              "SendRemainingPackets calls under any budgets (each segment closed by a flush), the model's per-call observations satisfy the executable fn-2 specification segments_ok.")
 LEVEL_NOTE = ("Trusted: Coq kernel; the hand-written tx model (validated by correspondence on ~1350 fault-free message histories and ~3300 interrupted call histories per quick run incl. all boundary lengths); "
               "constants from Gen/GenC01.v; harness + verif hooks; extraction + OCaml driver. Assumes the packet size is constant within a message and the transport accepts full writes.")
 def nontrivial(c):
